@@ -41,6 +41,9 @@ type poolKey struct {
 	big    bool    // kNumber: |value| >= 2^53, spelled so that several keys are one float64
 	layout string  // kDate: which spelling
 	day    int     // kDate: days since 2000-01-01 (only the order matters)
+	// kDate keys of the date views (dateviews.go): the instant, seconds since 1970-01-01T00:00:00Z and nanoseconds
+	hasInst bool
+	sec, ns int64
 	// generated: a key of the size families (size.go), not of the hand-written pool
 	generated bool
 }
@@ -94,7 +97,8 @@ type view struct {
 	// calendar views (homogeneous sets of weekday or of month names in one spelling):
 	calendarOnly bool   // only the contextual and date sorts are run on this view
 	fullSet      bool   // the complete key set of the view is a data set as well
-	spelling     string // appended to the input class of a signature ("" = not a calendar view)
+	spelling     string // appended to the input class of a signature ("" = not a calendar / date view)
+	dateOnly     bool   // date views (dateviews.go): only the date sorts are run on this view
 }
 
 // curView is the view the case under execution belongs to (set by the worker
@@ -139,7 +143,7 @@ func poolIdx(names ...string) []int {
 	return out
 }
 
-var views = append(baseViews, calendarViews()...)
+var views = append(append(baseViews, calendarViews()...), dateViews()...)
 
 var baseViews = []view{
 	{name: "main", keys: poolRange(0, 21), values: []int64{1, 2}, maxSetQ: 4, maxSetT: 5},
@@ -338,6 +342,11 @@ func classifyEx(mode string, keys []*poolKey, values []int64, tiesFirst bool) (l
 	case "date":
 		if nDate > 0 {
 			if nDate == n && len(layouts) == 1 {
+				// two distinct texts of one instant (same moment written with two zone offsets): S8 allows
+				// either order, S2 still wants one; a failure class of its own, like two spellings of one weekday
+				if tiesFirst && sameInstant(keys) {
+					return "date", "date-same-instant"
+				}
 				return "date", "all-date-same-layout"
 			}
 			return "date", "date-mixture"
@@ -483,12 +492,9 @@ func semanticViolation(mode string, desc bool, out []*poolKey, outValues []int64
 		if !monotone(xs, desc) {
 			return "month names are not in calendar order"
 		}
-	case level == "date" && class == "all-date-same-layout": // S8
-		var xs []float64
-		for _, k := range out {
-			xs = append(xs, float64(k.day))
-		}
-		if !monotone(xs, desc) {
+	case level == "date" && (class == "all-date-same-layout" || class == "date-same-instant"): // S8
+		// (exact comparison of the instants; texts of one instant may come in any order)
+		if !chronological(out, desc) {
 			return "dates are not in chronological order"
 		}
 	}
